@@ -499,6 +499,9 @@ def run(ctx):
         if ctx.quick:
             pairs = pairs[::3]
         pairs += [("log_evidence", "ratio_all"), ("evidence_error", "ess")]
+        # one quantity configured twice (its name and its alias, or the same name) with two tolerances:
+        # still two criteria, each with its own tolerance
+        pairs += [("log_dZ", "log_evidence"), ("evidence_error", "Z_err"), ("ratio", "ratio_all"), ("ess", "ess")]
         for a, b in pairs:
             pa, pb = placements([r[ALIASES.get(a, a)] for r in rec]), placements([r[ALIASES.get(b, b)] for r in rec])
             if ctx.quick:
